@@ -32,7 +32,10 @@ def _z3_check(text, timeout_ms, seed=0):
         s.from_string(text)
     except z3.Z3Exception as e:
         return "error:%s" % str(e)[:200]
-    r = s.check()
+    try:
+        r = s.check()
+    except z3.Z3Exception as e:      # an internal solver error is an `unknown`, never a verdict
+        return "error:%s" % str(e)[:200]
     if r == z3.unsat:
         return "unsat"
     if r == z3.sat:
